@@ -113,9 +113,11 @@ Example C10_nonvacuous_string_literals :
   option_map (map a_start) (string_literals 6 ex_call) = Some [mkPos 1 5; mkPos 1 11].
 Proof. vm_compute. split; reflexivity. Qed.
 
-(* the partition theorems cover CRLF and indented texts as they are (C10_split_lossless has no hypothesis
-   on the text): a continuation backslash before a CRLF line end keeps the blank line in the statement's
-   piece (fix C10a); an indented block with a `;` join, node columns shifted back by the margin (fix C10b) *)
+(* the partition theorems cover every text as it is (C10_split_lossless has no hypothesis on the text):
+   a continuation backslash before a CRLF line end keeps the blank line in the statement's piece (fix C10a,
+   committed as 2364e62); the second example is a model-level illustration only - an indented text with
+   hand-written node positions; indented blocks are not compilable and therefore outside the property's
+   quantifier and outside the check *)
 Definition ex_t3 := of_str (dec "y = 1 $5c;$d;$a;$d;$a;z = 2$d;$a;"%string) (mkPos 1 1).
 Definition ex_ns3 : list (node N) := [mkNode (mkPos 1 1) 1 0%N; mkNode (mkPos 3 1) 3 1%N].
 Example C10_nonvacuous_crlf :
